@@ -1,7 +1,6 @@
 package otto
 
 import (
-	"encoding/hex"
 	"errors"
 	"math"
 	"net/url"
@@ -297,36 +296,51 @@ func builtinEscape(input string) string {
 	return string(output)
 }
 
+// unescapeHex returns the value of the hexadecimal digits in units.
+func unescapeHex(units []uint16) (uint16, bool) {
+	var value uint16
+	for _, chr := range units {
+		switch {
+		case '0' <= chr && chr <= '9':
+			value = value<<4 + chr - '0'
+		case 'a' <= chr && chr <= 'f':
+			value = value<<4 + chr - 'a' + 10
+		case 'A' <= chr && chr <= 'F':
+			value = value<<4 + chr - 'A' + 10
+		default:
+			return 0, false
+		}
+	}
+	return value, true
+}
+
+// builtinUnescape works on UTF-16 code units (B.2.2): a character that is not
+// part of an escape is copied as it is, and %uD83D%uDE00 yields one pair.
 func builtinUnescape(input string) string {
-	output := make([]rune, 0, len(input))
-	length := len(input)
+	input16 := utf16.Encode([]rune(input))
+	output := make([]uint16, 0, len(input16))
+	length := len(input16)
 	for index := 0; index < length; {
-		if input[index] == '%' {
-			if index <= length-6 && input[index+1] == 'u' {
-				byte16, err := hex.DecodeString(input[index+2 : index+6])
-				if err == nil {
-					value := uint16(byte16[0])<<8 + uint16(byte16[1])
-					chr := utf16.Decode([]uint16{value})[0]
-					output = append(output, chr)
+		if input16[index] == '%' {
+			if index <= length-6 && input16[index+1] == 'u' {
+				if value, ok := unescapeHex(input16[index+2 : index+6]); ok {
+					output = append(output, value)
 					index += 6
 					continue
 				}
 			}
 			if index <= length-3 {
-				byte8, err := hex.DecodeString(input[index+1 : index+3])
-				if err == nil {
-					value := uint16(byte8[0])
-					chr := utf16.Decode([]uint16{value})[0]
-					output = append(output, chr)
+				if value, ok := unescapeHex(input16[index+1 : index+3]); ok {
+					output = append(output, value)
 					index += 3
 					continue
 				}
 			}
 		}
-		output = append(output, rune(input[index]))
+		output = append(output, input16[index])
 		index++
 	}
-	return string(output)
+	return string(utf16.Decode(output))
 }
 
 func builtinGlobalEscape(call FunctionCall) Value {
